@@ -220,7 +220,7 @@ def _encode_e2e(c, pool=None):
         x_rest=L([S(t) for t in (o.get("rest") or [])]),
         x_dec=Opt(S(_b(o["dec"]))) if o["decOK"] else "None",
         x_bcount=Z(o["bcount"]), x_bmethod=S(o["bmethod"]), x_btarget=S(o["btarget"]), x_bparsed=_target(o["bparsed"], S),
-        x_bhost=S(o["bhost"]), x_bheaders=_hmap(o["bheaders"], S), x_bbody=S(_b(o["bbody"])),
+        x_bhost=S(o["bhost"]), x_bheaders=_hmap(o["bheaders"], S), x_bbody=S(_b(o["bbody"])), x_bbody2=S(_b(o.get("bbody2"))),
         x_brest=L([S(t) for t in (o.get("brest") or [])]),
         x_bdec=Opt(S(_b(o["bdec"]))) if o["bdecOK"] else "None")
     wrap = pool.wrap if own else (lambda t: t)
